@@ -1,6 +1,7 @@
 package bwrun
 
 import (
+	"bytes"
 	"encoding/json"
 	"fmt"
 	"io"
@@ -145,7 +146,7 @@ func compareTrees(a, b string, out *simkit.Outcome, what string) {
 }
 
 func runPostOps(sc *bw.Scenario, book *simkit.TapeBook, w *world, cl *closure, res *vresult, log *simkit.Log, out *simkit.Outcome) {
-	if res.bundle == nil || res.anyErr || len(sc.Post) == 0 {
+	if res.bundle == nil || res.anyErr || len(sc.Post) == 0 || res.closedInTask {
 		return
 	}
 	root := res.r.target
@@ -372,16 +373,31 @@ func checkOpened(b *sourcebundle.Bundle, root string, out *simkit.Outcome, what 
 }
 
 func runCorrupt(sc *bw.Scenario, cl *closure, res *vresult, out *simkit.Outcome) {
-	for i, c := range sc.Corrupt {
-		dir := fmt.Sprintf("/w/corrupt%d", i)
-		os.RemoveAll(dir)
-		copyTree(res.r.target, dir)
-		os.MkdirAll(dir+"/other-dir", 0o755)
+	// one directory for all stored-state faults: it is first opened intact, then its
+	// manifest is altered in place - where possible keeping size (JSON tolerates trailing
+	// white space) and modification time, as a restore from an archive would
+	dir := "/w/corrupt"
+	os.RemoveAll(dir)
+	copyTree(res.r.target, dir)
+	os.MkdirAll(dir+"/other-dir", 0o755)
+	os.MkdirAll(dir+"/other-dir2", 0o755)
+	stamp := time.Unix(1400000000, 0)
+	os.Chtimes(dir+"/terraform-sources.json", stamp, stamp)
+	if _, err := sourcebundle.OpenDir(dir); err != nil {
+		out.Violate("C09", "reopen-fails", "copy", fmt.Sprintf("OpenDir on a copy of the finished bundle fails: %v", err))
+		return
+	}
+	for _, c := range sc.Corrupt {
 		m, ok := applyCorruption(res.manifest, c)
 		if !ok {
 			continue
 		}
+		if len(m) < len(res.manifest) && c.Kind == "field" {
+			m = append(m, bytes.Repeat([]byte(" "), len(res.manifest)-len(m))...)
+			out.Probe("corruption-keeps-size-and-mtime")
+		}
 		os.WriteFile(dir+"/terraform-sources.json", m, 0o644)
+		os.Chtimes(dir+"/terraform-sources.json", stamp, stamp)
 		out.Fault("stored/"+c.Kind+":"+c.Field, 1)
 		var b *sourcebundle.Bundle
 		var err error
@@ -426,7 +442,10 @@ func runSynthetic(sc *bw.Scenario, log *simkit.Log, out *simkit.Outcome) {
 	}
 	if sc.Manifest != nil {
 		dir := "/w/synth"
-		os.MkdirAll(dir+"/pkgdir", 0o755)
+		for _, d := range []string{"pkgdir", "pkgdir0", "pkgdir-old", "pkg"} {
+			os.MkdirAll(dir+"/"+d+"/m1", 0o755)
+			os.WriteFile(dir+"/"+d+"/main.tf", []byte(d), 0o644)
+		}
 		os.WriteFile(dir+"/terraform-sources.json", []byte(*sc.Manifest), 0o644)
 		log.Add(0, "op-start", "OpenDir synthetic")
 		var b *sourcebundle.Bundle
@@ -443,6 +462,7 @@ func runSynthetic(sc *bw.Scenario, log *simkit.Log, out *simkit.Outcome) {
 		}
 		if err == nil {
 			checkOpened(b, dir, out, "synthetic manifest")
+			checkReverseOnDisk(b, dir, out, "synthetic manifest")
 		} else {
 			out.Probe("hostile-manifest-refused")
 		}
@@ -458,6 +478,7 @@ func checkReverseOnDisk(b *sourcebundle.Bundle, root string, out *simkit.Outcome
 		}
 	}()
 	ents, _ := os.ReadDir(root)
+	// (ReadDir sorts by name: a directory is visited before the ones whose names extend it)
 	for _, e := range ents {
 		if !e.IsDir() {
 			continue
@@ -475,6 +496,7 @@ func checkReverseOnDisk(b *sourcebundle.Bundle, root string, out *simkit.Outcome
 			if err != nil || filepath.Clean(back) != filepath.Clean(lp) {
 				out.Violate("C18", "reverse-lookup", "not-inverse", fmt.Sprintf("%s: path %s -> %s -> %q (%v)", what, simkit.CanonString(lp), src, back, err))
 			}
+			out.Probe("reverse-lookup-on-hostile-manifest")
 		}
 	}
 }
